@@ -189,7 +189,7 @@ func c17Op(s *c17Shared, r *rand.Rand, gid int, clock func() int64) c17Event {
 		}
 	default: // operations on PRIVATE objects
 		j := r.Intn(len(s.wires))
-		switch r.Intn(8) {
+		switch r.Intn(9) {
 		case 0:
 			ev.kind = "private:DecodeClaimsFromCBOR+read"
 			w := s.wires[j]
@@ -262,6 +262,44 @@ func c17Op(s *c17Shared, r *rand.Rand, gid int, clock func() int64) c17Event {
 				want, _ := psatoken.EncodeClaimsToCBOR(x)
 				return fmt.Sprintf("verify=%v independent=%v payload-ok=%v", e.Verify(k.Pub) == nil, perr == nil && env.Verify(k.Pub) == nil, perr == nil && bytes.Equal(env.Payload, want))
 			}
+		case 7:
+			// the embedding-aware codec (extension profiles) under concurrency,
+			// including decodes that FAIL half-way (duplicate key, text key, missing mandatory key)
+			ev.kind = "private:extension-profile encode/decode incl. failing decodes"
+			a := s.abstr[4]
+			bad := [][]byte{
+				{0xa2, 0x01, 0x00, 0x01, 0x00},              // duplicate key
+				{0xa1, 0x61, 0x61, 0x00},                    // text key
+				{0xa1, 0x19, 0x01, 0x09, 0x00},              // 265: 0 (wrong type), everything else missing
+				{0xbf, 0x01, 0x00, 0x01, 0x00, 0xff},        // indefinite, duplicate
+				{0xa1, 0x01},                                // truncated
+				[]byte(`{"eat-profile":1,"eat-profile":2}`), // (JSON) duplicate member
+			}
+			which := r.Intn(len(bad))
+			fn = func() string {
+				out := ""
+				y := extprof.NewExtP2Claims().(*extprof.ExtP2Claims)
+				if which == len(bad)-1 {
+					out += fmt.Sprint(y.UnmarshalJSON(bad[which]) == nil)
+				} else {
+					out += fmt.Sprint(y.UnmarshalCBOR(bad[which]) == nil)
+				}
+				x, err := obs.Build(a)
+				if err != nil {
+					return out + "unbuildable"
+				}
+				enc, err := psatoken.EncodeClaimsToCBOR(x)
+				if err != nil {
+					return out + "encode-error"
+				}
+				z, err := psatoken.DecodeClaimsFromCBOR(enc)
+				if err != nil {
+					return out + "decode-error"
+				}
+				o := obs.Observe(z)
+				doc, _ := psatoken.EncodeClaimsToJSON(z)
+				return out + fmt.Sprintf("%x|%s|%s", enc, o.String(), doc)
+			}
 		default:
 			ev.kind = "private:NewClaims(every registered profile)"
 			fn = func() string {
@@ -295,7 +333,7 @@ func derefB(p *[]byte) []byte {
 }
 
 func runC17(c *mon.Ctx) {
-	c.Rule("worker built with the Go race detector (GORACE halt_on_error=0, reports collected and de-duplicated by the supervisor; any report with a library frame is a violation). Rounds: G in {16,32,64} goroutines x GOMAXPROCS in {2,4,16}; each goroutine runs a seeded random mix of (a) read-only operations on SHARED claims-sets (P1, P2, extension; built by setters, by direct assignment and by decoding; one invalid) - Validate, all getters, component getters, CBOR/JSON encoding validating and not - and on SHARED Evidence (self-signed and decoded): Verify with right and wrong key, GetInstanceID, GetImplementationID, MarshalJSON; (b) operations on PRIVATE objects: NewClaims for every registered profile, setters, decode CBOR / JSON / COSE, validate, read, encode, SetClaims, ValidateAndSign, Verify. Profiles are only ever registered while no goroutine is running: the extension before the first round and one fresh profile before EVERY round, and each round runs its concurrent pass first, so that anything initialised lazily on first use (after a registration) is initialised under concurrency. The same seeds are then run sequentially; every operation's result digest must be identical in the concurrent run (signatures: verifies + payload equality). Call/return times from one monotonic clock give the number of operation pairs that actually overlapped on the same shared object; a round without such overlaps is inconclusive. Monitor state is per goroutine and merged after Wait(). distinct_nontrivial = distinct (round configuration, operation kind, object) signatures")
+	c.Rule("worker built with the Go race detector (GORACE halt_on_error=0, reports collected and de-duplicated by the supervisor; any report with a library frame is a violation). Rounds: G in {16,32,64} goroutines x GOMAXPROCS in {2,4,16}; each goroutine runs a seeded random mix of (a) read-only operations on SHARED claims-sets (P1, P2, extension; built by setters, by direct assignment and by decoding; one invalid) - Validate, all getters, component getters, CBOR/JSON encoding validating and not - and on SHARED Evidence (self-signed and decoded): Verify with right and wrong key, GetInstanceID, GetImplementationID, MarshalJSON; (b) operations on PRIVATE objects: NewClaims for every registered profile, setters, decode CBOR / JSON / COSE, validate, read, encode, SetClaims, ValidateAndSign, Verify, and extension-profile encode / decode through the embedding-aware codec including decodes that fail half-way (duplicate key, text key, truncated). Profiles are only ever registered while no goroutine is running: the extension before the first round and one fresh profile before EVERY round, and each round runs its concurrent pass first, so that anything initialised lazily on first use (after a registration) is initialised under concurrency. The same seeds are then run sequentially; every operation's result digest must be identical in the concurrent run (signatures: verifies + payload equality). Call/return times from one monotonic clock give the number of operation pairs that actually overlapped on the same shared object; a round without such overlaps is inconclusive. Monitor state is per goroutine and merged after Wait(). distinct_nontrivial = distinct (round configuration, operation kind, object) signatures")
 	if err := extprof.Register(extprof.ExtP2Name); err != nil {
 		c.Violation("harness/register", err.Error(), nil)
 		return
